@@ -496,4 +496,26 @@ def indexCoalesce (layers : List String) (ecos : List (Kind × List Layer)) : Op
   | none => none
   | some rs => resolve layers (mergeSR {} rs)
 
+/-! ### the store reads of `controller.coalesce`
+
+  For every ecosystem and every manifest layer `coalesce` reads the layer's packages, repositories,
+  distributions and files from the store (`PackagesByLayer`, …).  `none` = one of those reads returned an
+  error: the state returns `Terminal` with the error, no coalescer runs. -/
+
+def allSome {α : Type} : List (Option α) → Option (List α)
+  | [] => some []
+  | none :: _ => none
+  | some x :: rest => (allSome rest).map (x :: ·)
+
+def packReads : List (Kind × List (Option Layer)) → Option (List (Kind × List Layer))
+  | [] => some []
+  | (k, rs) :: rest =>
+    match allSome rs, packReads rest with
+    | some arts, some more => some ((k, arts) :: more)
+    | _, _ => none
+
+/-- `coalesce` with its store reads: `none` = the Index call fails -/
+def indexCoalesceReads (layers : List String) (reads : List (Kind × List (Option Layer))) : Option Report :=
+  (packReads reads).bind (indexCoalesce layers)
+
 end ClairModel.Coalesce
